@@ -4,5 +4,5 @@ CONSTANTS
   Alphabet <- ClassTabAlphabet
   MaxLen = 5
   DialectSet <- LibDialects
-INVARIANTS Relex RenderIdempotent UngetGet LeadingOnlyAdds CommentOnlyAdds TabsAreSpaces NoEolInParens ParensHideLines BalancedIffAccepted
+INVARIANTS Relex RenderIdempotent UngetGet LeadingOnlyAdds CommentOnlyAdds TabsAreSpaces NoEolInParens ParensHideLines BalancedIffAccepted CommentsIgnored LeadingBlank
 CHECK_DEADLOCK FALSE
